@@ -240,6 +240,17 @@ fn diff_case(rng: &mut Rng, rep: &mut Report, cfg: &GenCfg) {
         Ok(Ok(r)) => r,
     };
     let o1 = maps::from_quill_diff(&r1);
+    // An addition of a class or method that stays because children remain: the statement says which additions are discarded, not which action a
+    // kept one carries. `Add(b)` (the repository) and `Edit(placeholder, b)` - the shape a removal gets - are both accepted.
+    let mut expected = expected;
+    for (ck, ec) in expected.classes.iter_mut() {
+        let Some(oc) = o1.classes.get(ck) else { continue };
+        if let (Act::Add(b), Act::Edit(x, y)) = (&ec.name, &oc.name) { if y == b && x == innermost(ck) { ec.name = oc.name.clone(); rep.count("insert.kept_addition_carried_as_edit_from_placeholder (accepted)"); } }
+        for (mk, em) in ec.methods.iter_mut() {
+            let Some(om) = oc.methods.get(mk) else { continue };
+            if let (Act::Add(b), Act::Edit(x, y)) = (&em.name, &om.name) { if y == b && *x == mk.0 { em.name = om.name.clone(); rep.count("insert.kept_addition_carried_as_edit_from_placeholder (accepted)"); } }
+        }
+    }
     for (sig, w) in judge_insert(&expected, &o1) { rep.violation(sig, json!({"where": w, "input": input(), "expected": expected.render(), "observed": o1.render()})); }
     match guard(|| r1.clone().insert_dummy_and_contract_inner_names().map_err(|e| format!("{e:#}"))) {
         Ok(Ok(r2)) => { let o2 = maps::from_quill_diff(&r2); for (k2, w) in cmp::kinds(&cmp::diff_diffs(&o1, &o2)) { rep.violation(format!("C10 insert_dummy not idempotent: {k2}"), json!({"where": w, "input": input(), "once": o1.render(), "twice": o2.render()})); } }
